@@ -9,4 +9,8 @@ pub fn vec_eq(a: &Vec<usize>, b: &Vec<usize>) -> (r: bool) ensures r == (a@ == b
 pub fn usize_max(a: usize, b: usize) -> (r: usize) ensures r == (if a >= b { a } else { b }) { core::cmp::max(a, b) }
 #[verifier::external_body]
 pub fn usize_min(a: usize, b: usize) -> (r: usize) ensures r == (if a <= b { a } else { b }) { core::cmp::min(a, b) }
+pub assume_specification<T> [<[T]>::rotate_right] (s: &mut [T], k: usize)
+    requires k <= old(s)@.len(),
+    ensures final(s)@.len() == old(s)@.len(),
+        forall|i: int| 0 <= i < old(s)@.len() ==> #[trigger] final(s)@[i] == old(s)@[(i + old(s)@.len() - k) % (old(s)@.len() as int)];
 // ===== end prelude/std_assumed.rs =====
